@@ -54,10 +54,10 @@ Theorem min_gen_set_option_is_sound (J : kfd_inst) (P : N -> list node) (w : N -
   (forall k, status k = MgOptimal -> exists a, sat a (encode_mgs I k)) ->
   (forall k, status k = MgInfeasible -> forall a, ~ sat a (encode_mgs I k)) ->
   mgsm_loop status lb n extra = (tried, Some m) ->
-  (lb <= p_k (f_base J))%nat ->
+  (lb <= p_k (f_base J))%nat -> (1 <= p_k (f_base J))%nat ->
   (m <= p_k (f_base J))%nat.
 Proof.
-  intros G E s t D WF S1 S2 S3 Hparts Hmult Hint Hnum Htot Hopt Hinf Hloop Hlb.
+  intros G E s t D WF S1 S2 S3 Hparts Hmult Hint Hnum Htot Hopt Hinf Hloop Hlb Hk1.
   set (L := filter (fun e => negb (mem_edge e (f_ignore J))) E).
   assert (HL : forall e, In e L -> In e E /\ mem_edge e (f_ignore J) = false).
   { intros e He. unfold L in He. apply filter_In in He. destruct He as [H1 H2]. split; [exact H1|]. apply negb_true_iff. exact H2. }
@@ -76,5 +76,5 @@ Proof.
     - unfold parts_of. rewrite Hparts. constructor. }
   destruct (mgs_returns_minimum I status Hparts ltac:(rewrite Hmult; lia) Hopt Hinf lb n extra tried m Hloop) as (_ & _ & Hmin).
   destruct (le_lt_dec m k) as [Hle|Hgt]; [exact Hle|exfalso].
-  exact (Hmin k g' (conj Hlb Hgt) Hlen' Hgs).
+  exact (Hmin k g' (conj (Nat.max_lub _ _ _ Hk1 Hlb) Hgt) Hlen' Hgs).
 Qed.
